@@ -84,7 +84,7 @@ class Deque(
 
                 if not getattr(instance, "_skip_validation", False):
                     if len(self.items) > len(value) or (
-                        additional_properties_forbidden and len(self.items) > len(value)
+                        additional_properties_forbidden and len(self.items) < len(value)
                     ):
                         raise ValueError(
                             f"{self._name}: Got {value}; Expected an deque of length {len(self.items)}"
